@@ -64,7 +64,11 @@ HdrIssue ==
   /\ UNCHANGED << cfg, buf, hdrGot, contiguous, foreign, total, maxLe, chunks, ladder, result >>
 
 \* header accepted: n octets (n <= 4), total from the identifier+length octets actually parsed
+HdrReject == /\ pc' = "done" /\ result' = "err" /\ req' = NoReq
+             /\ UNCHANGED << cfg, buf, hdrGot, contiguous, foreign, total, maxLe, chunks, ladder >>
+
 HdrAccept(n) ==
+  IF n > 4 THEN HdrReject ELSE                        \* more than requested
   /\ buf' = n /\ hdrGot' = n /\ req' = NoReq
   /\ IF n < cfg.h THEN                              \* header incomplete: the length cannot be parsed
           /\ pc' = "done" /\ result' = "err" /\ total' = total
@@ -121,9 +125,6 @@ LoopAccept(n) ==
   /\ req' = NoReq
   /\ UNCHANGED << cfg, hdrGot, total, chunks >>
 
-HdrReject == /\ pc' = "done" /\ result' = "err" /\ req' = NoReq
-             /\ UNCHANGED << cfg, buf, hdrGot, contiguous, foreign, total, maxLe, chunks, ladder >>
-
 \* ---- chip (ISO 7816-4 READ BINARY, even INS) ------------------------------------------------------
 \* how many octets a conforming chip may return for the request
 ChipMax(r) == LET avail == cfg.ef - r.off
@@ -145,7 +146,7 @@ ChipHdr ==
 ChipLoop ==
   /\ pc = "chip"
   /\ IF req.p1 >= 128 THEN                          \* short EF identifier semantics: not our file/offset
-          \/ LoopAccept(Min(req.le, 8))              \* some other file (or the current one from offset P2) has data there
+          \/ LoopAccept(req.le)                      \* some other file (or the current one from offset P2) has data there
           \/ LoopReject                              \* no such EF: 6A82
      ELSE IF cfg.rejectOver # 0 /\ req.le > cfg.rejectOver THEN LoopReject      \* 6700
      ELSE IF req.off >= cfg.ef THEN LoopReject       \* 6B00
